@@ -423,11 +423,26 @@ CHECK = {
             "15% pure yaw, random otherwise; translations up to 1e3), poses up to 1e4 with |pitch| <= pi/2-0.05 before and after, PSD 6x6 "
             "covariances of rank 0..6 and scale 1e-4..1e2; least squares: 1..4 unknowns, up to 5 redundant rows, dyadic entries, full rank, "
             "diagonal preconditioners and, every second problem, a full non-symmetric preconditioner (case kind lsg). Non-trivial = distinct case with a finite result.",
-    "trusted": ["hand-written models coq/AnglesModel.v, coq/PoseCovModel.v tied by differential execution (this run)",
+    "trusted": ["translator translate/eigensym.py + tr_C12_eigensym.py: clang JSON AST -> entry-wise symbolic values; its reading of the Eigen operations it accepts (coefficient access, Zero/Identity/Unit*, comma-initialiser block placement, * + - unary -, transpose, col/row/block/head, cross); anything else is refused (fail closed)",
+                "hand-written models coq/AnglesModel.v, coq/PoseCovModel.v tied by differential execution (this run)",
                 "extraction (ExtrOcamlBasic), ocaml/numf.ml, ocaml/drv_C12.ml", "harness/C12.cpp, python/mpmath/Fraction oracle in checks/C12.py",
                 "Eigen: Transform::rotation() returns the linear part of a rigid transform; LDLT solve returns the inverse (contract checked)"],
     "manifest": {
-        "text": "Coq (Coquelicot is_derive): the entry-wise derivatives of Rz*Ry*Rx in each angle (dR_true) and of R*T; the faithful model of "
+        "text": "SYNTACTIC TIE: the matrix code itself is regenerated from the clang AST on every run by a symbolic evaluator for small fixed-size "
+                "Eigen expressions (translate/eigensym.py + tr_C12_eigensym.py -> coq/gen/SrcEigenC12.v) and proved equal to the models (real "
+                "instance, coq/SrcTieC12.v): (1) SmartRotation3D(x,y,z) = the default constructor's Identity/Zero member initialisers followed "
+                "by init(x,y,z) — all ten member matrices, element writes and the three-factor products included — equal Rx_of..dRz_of and "
+                "smart_init (C12_source_tie_smart_rotation; dRTdAngles: C12_source_tie_smart_dRTdAngles), i.e. exactly the model whose "
+                "'true derivative + identity leftover' characterisation the open known finding is keyed on — and that finding is restated about the "
+                "generated terms themselves (C12_source_smart_derivative_leftover); (2) operator*(Affine3d, Pose3D) of "
+                "src/geometry/Pose3D.cpp: the comma initialisers with column / row / cross-product blocks, the loop over k (unrolled), the block "
+                "assignment and the scalar coefficients give a 6x6 local J equal to pose_J in all 36 entries, the returned position = l*p + t, the "
+                "matrix handed to rotation3DToEulerAngles = l*S (S through the inlined delegating constructor), the returned orientation = the C10 "
+                "unit's generated term applied to it, and the returned covariance = J*C*J^T (C12_source_tie_pose_jacobian, "
+                "C12_source_tie_pose_mean; the covariance lemma follows whatever chain of 6x6 expressions the source uses, e.g. through a local J*C); composed with the Jacobian theorem: the generated 6x6 matrix is the Jacobian of the generated mean map "
+                "(C12_source_pose_jacobian_is_derivative). The lemmas survive renaming / hoisting / re-association / statement reordering and break "
+                "on a changed sign, index, factor order, dropped transpose or initial value.  "
+                "Coq (Coquelicot is_derive): the entry-wise derivatives of Rz*Ry*Rx in each angle (dR_true) and of R*T; the faithful model of "
                 "SmartRotation3D's derivative members equals them plus Rz*Ry*E00 / Rz*E11*Rx / E22*Ry*Rx, a term that is never zero "
                 "(characterisation + refutation: open known finding, pinned by the repo's tests); the repaired 6x6 Jacobian of "
                 "operator*(Affine3d, Pose3D) is the derivative of the model's own pose map, entry by entry (C12_pose_jacobian: every rigid "
@@ -443,9 +458,12 @@ CHECK = {
                 "oracle compares derivative matrices with the true derivatives (recognising exactly the characterised leftover, 1e-12) and the "
                 "attached covariance with J*C*J^T from 40-digit central differences of the pose map, cross-checked against central "
                 "differences of the implementation's own outputs; rational arithmetic for the solver covariance.",
-        "note": "Trusted: Coq kernel, standard real-number axioms; hand transcription checked numerically each run; rounding observed not proved; "
+        "note": "Trusted: Coq kernel, standard real-number axioms; the translator's reading of the Eigen operations it accepts (coefficient "
+                "access, Zero/Identity, comma-initialiser block placement, * + - unary -, transpose, col/row/block, cross; anything else is refused) "
+                "and clang's AST; the least-squares part and the parts of the models not listed under SYNTACTIC TIE are hand transcriptions checked "
+                "numerically each run; rounding observed not proved; "
                 "Eigen's rotation() (SVD) and LDLT are oracle arguments with contracts checked at run time.",
-        "technique": "Coq proof over R (Coquelicot derivatives, ring/nsatz, sum algebra) + extracted-model correspondence run + mpmath/rational oracle",
+        "technique": "Coq proof over R (Coquelicot derivatives, ring/nsatz, sum algebra) + syntactic source tie (symbolic evaluation of the Eigen matrix code from the clang AST, tie lemmas by ring) + extracted-model correspondence run + mpmath/rational oracle",
     },
     "assumptions": ["theorems are over real arithmetic; floating-point behaviour is measured by the correspondence run and the oracle",
                     "where a reported angle is exactly 0 the [0,2pi) representative jumps by 2pi and no ordinary derivative exists: there the "
